@@ -32,11 +32,17 @@ def attrs_of(m):
 def via(entry, payload, opt):
     from pyrtcm import RTCMMessage, RTCMReader
 
+    import zlib
+
+    from vf import streams
+
+    # the caller's data as bytes / bytearray / bytes subclass / memoryview (decided by the bytes and the option)
+    rep = ("bytes", "bytes", "bytearray", "sub", "mview", "mslice")[(zlib.crc32(payload) + int(opt)) % 6]
     if entry == "ctor":
-        return attrs_of(RTCMMessage(payload=payload, labelmsm=opt))
+        return attrs_of(RTCMMessage(payload=streams.as_rep(rep, payload), labelmsm=opt))
     fr = refcrc.frame(payload)
     if entry == "parse":
-        return attrs_of(RTCMReader.parse(fr, labelmsm=opt))
+        return attrs_of(RTCMReader.parse(streams.as_rep(rep, fr), labelmsm=opt))
     out = list(RTCMReader(io.BytesIO(fr), labelmsm=opt, quitonerror=2, validate=len(payload) & 1,
                           parsed=True))
     assert len(out) == 1
